@@ -27,12 +27,12 @@ CHECKS = {
  "C12": dict(engine="mirsmt+kani", technique="SMT over a sequential encoding generated from the MIR of Recency::should_store_{counter,gauge,histogram} with an abstract map/clock/registry: one step from an arbitrary state (decision table) and a two-kind history; Kani harness for Generational; counterexamples replayed natively with a mock clock",
     text="from every entry state, generation, instant, timeout, mask and delete outcome: delete is attempted exactly when the entry has the same generation and was seen more than the timeout ago and the kind is covered; bookkeeping afterwards as the rule requires; other kinds under the same key untouched; every update bumps the generation",
     note="std HashMap as a finite association (trusted), quanta clock arbitrary; Prometheus-side removal of expired distributions not covered", ref="§4 C12"),
- "C13": dict(engine="kani", technique="bounded model checking of the compiled code (Kani/CBMC) with recording recorder doubles over symbolic names, labels, units and operations",
-    text="prefix layer forwards '<prefix>.<name>' with everything else unchanged; fanout reaches every recorder and every inner handle exactly once with the same value; Stack composes in push order",
-    note="filter and router layers not covered (third-party automaton/trie out of reach of the SAT back end); 1-byte strings", ref="§4 C13"),
- "C15": dict(engine="kani", technique="bounded model checking of the compiled code (Kani/CBMC) over symbolic ascending f64 bounds and f64 samples of every class",
-    text="bucket i counts exactly the samples <= bound i for record and record_many alike, counts monotone across bounds and over time, count = number of samples, NaN handled identically on both paths",
-    note="<=3 bounds, <=3 samples; matcher precedence and rolling summary window not covered yet; DDSketch accuracy not applicable", ref="§4 C15"),
+ "C13": dict(engine="mirsmt+kani", technique="bounded model checking of the compiled code (Kani/CBMC) with recording recorder doubles over symbolic names, labels, units and operations (prefix, fanout, Stack); SMT over encodings generated from the MIR of RouterBuilder/Router and FilterLayer/Filter (router, filter)",
+    text="prefix layer forwards '<prefix>.<name>' with everything else unchanged; fanout reaches every recorder and every inner handle exactly once with the same value; Stack composes in push order; the router delivers to exactly one recorder, the target of the longest applicable route (later identical pattern wins) or the default; the filter drops exactly when the automaton of the configuration at layer() time matches, with inert handles",
+    note="1-byte strings and label counts 0/1 in the Kani part; router and filter layers by MIR->SMT with radix_trie / aho-corasick modelled by their documented meaning (two routes, patterns of 1-2 characters)", ref="§4 C13"),
+ "C15": dict(engine="mirsmt+kani", technique="bounded model checking of the compiled code (Kani/CBMC) over symbolic ascending f64 bounds and f64 samples of every class; SMT over an encoding generated from the MIR of DistributionBuilder::{new,get_distribution,get_distribution_type} and the derived Matcher ordering",
+    text="bucket i counts exactly the samples <= bound i for record and record_many alike, counts monotone across bounds and over time, count = number of samples, NaN handled identically on both paths; the buckets chosen for a name are those of the matching override with the highest precedence (full, prefix, suffix), then the global buckets, else a summary, and the TYPE string agrees",
+    note="<=3 bounds, <=3 samples; two overrides with patterns of 1-2 characters; rolling summary window not covered; DDSketch accuracy not applicable", ref="§4 C15"),
  "C20": dict(engine="mirsmt+kani", technique="SMT partial-order encoding generated from the MIR of WeakRecorder::* and RecoveryHandle::into_inner over a counter model of Arc/Weak; Kani harness for the failed-install path; native schedule replay",
     text="for every interleaving of 1-2 emitting threads with into_inner / handle drop: no call is inside the recorder when it is recovered or finalised, none enters afterwards, recorder state intact during calls, original recorder returned, dropped exactly once, live until recovered, no panic",
     note="std Arc/Weak trusted (modelled as strong counter); recorder methods as enter/use/exit", ref="§4 C20"),
